@@ -126,7 +126,7 @@ theorem exI_hyps : LogicModel (exI : Model (Ext K)) (exI : Model (Ext K)).domain
   have sx : inScope (exI : Model (Ext K)).domain "x" :=
     ⟨{ name := "x", ty := .int 0 5, usage := 1 }, by simp [exI], rfl, by simp⟩
   refine ⟨⟨⟨by intro y hy; simp [exI, varsOf] at hy; subst hy; exact sx, by simp [FinE, exI, finiteLits],
-    fun ρ _ => by simp [exI, NC], fun ρ _ => ⟨ρ "x", by simp [exI, eval]⟩⟩, by intro c hc; simp [exI] at hc⟩,
+    fun ρ _ => by simp [exI, NC]⟩, by intro c hc; simp [exI] at hc⟩,
     by intro c hc; simp [exI] at hc, ⟨by simp [exI], ?_, ?_, ?_, ?_⟩⟩
   · intro d hd lo hi hty
     simp only [exI, List.mem_singleton] at hd
